@@ -118,14 +118,18 @@ theorem epoch_release_returns (c : Cfg) (ops : List Op) (k k' i : Nat)
   · simp at hex
 
 /-- A lease renewed within its grace period is never reclaimed: after ANY history in which k holds slot i,
-    once k renews, every continuation that does not release k and advances the epoch at most
-    byte(grace) times leaves k on the same slot — and Lookup still answers its address. -/
-theorem epoch_renewed_never_reclaimed (c : Cfg) (pre ops : List Op) (k i : Nat)
+    once k renews, every continuation that does not release k and advances the epoch at most `grace`
+    times leaves k on the same slot — and Lookup still answers its address.
+    PARTIAL: for grace periods below 256; the code compares with byte(gracePeriod), so a grace period of
+    256 or more is truncated and the lease is dropped early (finding D20, `D20_truncation_witness`). -/
+theorem epoch_renewed_never_reclaimed_partial (c : Cfg) (hg : c.grace < 256) (pre ops : List Op) (k i : Nat)
     (hheld : (run (init c) pre).subs.lookup k = some i)
     (hno : ∀ op ∈ ops, op ≠ .release k)
-    (hadv : advCount ops ≤ c.graceB) :
+    (hadv : advCount ops ≤ c.grace) :
     (run (renew (run (init c) pre) k).1 ops).subs.lookup k = some i ∧
       Epoch.lookup (run (renew (run (init c) pre) k).1 ops) k = .addr (indexToIP c i) := by
+  have hgb : c.graceB = c.grace := Nat.mod_eq_of_lt hg
+  rw [← hgb] at hadv
   have hI := inv_run (inv_init c) pre
   have hc : (run (init c) pre).cfg = c := run_cfg _ _
   generalize run (init c) pre = s at *
@@ -151,11 +155,13 @@ theorem epoch_renewed_never_reclaimed (c : Cfg) (pre ops : List Op) (k i : Nat)
   rfl
 
 /-- the same for a lease that was just granted or re-requested (Allocate refreshes the generation too) -/
-theorem epoch_granted_kept_through_grace (c : Cfg) (pre ops : List Op) (k i : Nat)
+theorem epoch_granted_kept_through_grace_partial (c : Cfg) (hg : c.grace < 256) (pre ops : List Op) (k i : Nat)
     (hgot : (alloc (run (init c) pre) k).1.subs.lookup k = some i)
     (hno : ∀ op ∈ ops, op ≠ .release k)
-    (hadv : advCount ops ≤ c.graceB) :
+    (hadv : advCount ops ≤ c.grace) :
     (run (alloc (run (init c) pre) k).1 ops).subs.lookup k = some i := by
+  have hgb : c.graceB = c.grace := Nat.mod_eq_of_lt hg
+  rw [← hgb] at hadv
   have hI := inv_run (inv_init c) pre
   have hc : (run (init c) pre).cfg = c := run_cfg _ _
   generalize run (init c) pre = s at *
@@ -193,13 +199,16 @@ theorem epoch_granted_kept_through_grace (c : Cfg) (pre ops : List Op) (k i : Na
   exact lease_kept k i ops (alloc s k).1 0 hI' hgot hd (by rw [hcfg]; omega) hno
 
 /-- Expiry without renewal puts the address back into circulation — for grace periods the 2-bit
-    generation tag can represent (byte(grace) ≤ 2; see finding D20 for the rest): after ANY history, if
-    k neither renews nor re-requests during a continuation with at least byte(grace)+1 epoch advances,
+    generation tag can represent (grace ≤ 2; see finding D20 for the rest): after ANY history, if
+    k neither renews nor re-requests during a continuation with at least grace+1 epoch advances,
     k's lease is gone at the end, whatever else happened in between. -/
-theorem epoch_expiry_returns_partial (c : Cfg) (hg : c.graceB ≤ 2) (pre ops : List Op) (k : Nat)
+theorem epoch_expiry_returns_partial (c : Cfg) (hg' : c.grace ≤ 2) (pre ops : List Op) (k : Nat)
     (hno : ∀ op ∈ ops, op ≠ .alloc k ∧ op ≠ .renew k)
-    (hadv : c.graceB + 1 ≤ advCount ops) :
+    (hadv' : c.grace + 1 ≤ advCount ops) :
     (run (run (init c) pre) ops).subs.lookup k = none := by
+  have hgb : c.graceB = c.grace := Nat.mod_eq_of_lt (by omega)
+  have hg : c.graceB ≤ 2 := by rw [hgb]; exact hg'
+  have hadv : c.graceB + 1 ≤ advCount ops := by rw [hgb]; exact hadv'
   have hI := inv_run (inv_init c) pre
   have hc : (run (init c) pre).cfg = c := run_cfg _ _
   generalize run (init c) pre = s at *
@@ -220,13 +229,32 @@ theorem epoch_lapsed_slot_unheld (c : Cfg) (ops : List Op) (k i : Nat)
   | true => exact (hdrop hf).2
   | false => rw [hkeep hf] at hgone; simp at hgone
 
+/-- Utilisation (the third Stats() figure) is 0 when nothing is held or the pool has no usable address and the
+    fraction allocated/usable otherwise — never NaN, never a percentage (after fix be2192d).
+    The BITMAP allocator reports a percentage instead: finding KF-util-units (DistributedStats.Utilization
+    changes unit with the pool mode); the classification is observed on the real code by the `util` op. -/
+theorem epoch_util_is_fraction (c : Cfg) (ops : List Op) :
+    (utilKind (run (init c) ops) = "zero" ↔
+        ((run (init c) ops).cfg.usable = 0 ∨ (run (init c) ops).subs.length = 0)) ∧
+    (utilKind (run (init c) ops) = "zero" ∨ utilKind (run (init c) ops) = "ratio") := by
+  unfold utilKind
+  constructor
+  · constructor
+    · intro h; split at h
+      · assumption
+      · simp at h
+    · intro h; rw [if_pos h]
+  · split
+    · exact Or.inl rfl
+    · exact Or.inr rfl
+
 /-! ### recorded finding D20 (remaining part): a grace period of 3 or more epochs cannot be represented by
     the 2-bit generation tag — the distance of a generation from the current one is at most 3, so no
     lease ever lapses.  `epoch_expiry_returns_partial` excludes exactly this (`graceB ≤ 2`). -/
 def c3 : Cfg := { base := 0x0a000000, ones := 29, plen := 32, grace := 3 }
 
 theorem D20_witness :
-    ¬ c3.graceB ≤ 2 ∧
+    ¬ c3.grace ≤ 2 ∧
     ∀ n, (run (init c3) (.alloc 1 :: List.replicate n .advance)).subs.lookup 1 = some 1 := by
   refine ⟨by decide, ?_⟩
   intro n
@@ -237,6 +265,14 @@ theorem D20_witness :
   rw [List.eq_of_mem_replicate hop]
   intro h; cases h
 
+/-- D20, truncation: with GracePeriod 256 the comparison uses byte(256) = 0, so a lease granted at epoch e is
+    gone after ONE epoch advance although its grace period is 256 epochs. -/
+theorem D20_truncation_witness :
+    let c : Cfg := { base := 0x0a000000, ones := 29, plen := 32, grace := 256 }
+    ¬ c.grace < 256 ∧ (run (init c) [.alloc 1]).subs.lookup 1 = some 1 ∧
+      (run (init c) [.alloc 1, .advance]).subs.lookup 1 = none := by
+  decide
+
 /-! ### recorded finding KF-epoch-tiny: a one-address pool reports 2^64-1 usable addresses
     (`totalIPs - 2` wraps); `epoch_stats_true` excludes it by `ones < plen`. -/
 theorem KF_epoch_tiny_witness :
@@ -246,7 +282,7 @@ theorem KF_epoch_tiny_witness :
 /-! non-vacuity -/
 example : (alloc (run (init { base := 0x0a000000, ones := 30, plen := 32, grace := 1 })
     [.advance, .advance, .alloc 1, .alloc 2]) 3).2 = .exhausted := by decide
-example : advCount [Op.alloc 2, .advance, .lookup 1] ≤ (c3.graceB) ∧
+example : c3.grace < 256 ∧ advCount [Op.alloc 2, .advance, .lookup 1] ≤ c3.grace ∧
     ∀ op ∈ [Op.alloc 2, .advance, .lookup 1], op ≠ .release 1 := by decide
 example : (1 : Nat) + 1 ≤ advCount [Op.advance, .alloc 2, .advance] ∧
     ∀ op ∈ [Op.advance, .alloc 2, .advance], op ≠ .alloc 1 ∧ op ≠ .renew 1 := by decide
